@@ -2,7 +2,12 @@
 
 package immutable
 
-import "github.com/openGemini/openGemini/lib/util"
+import (
+	"fmt"
+	"runtime/debug"
+
+	"github.com/openGemini/openGemini/lib/util"
+)
 
 // Accessors used by the wide stage of C02 (hooks/engine/c02_wide_test.go) for the two size thresholds of the
 // TSSTORE file builders that have no setter reaching small values:
@@ -29,4 +34,15 @@ func VerifC02SetChunkMetaItemCount(n int) {
 func VerifC02Conf() (maxSegmentLimit, maxRowsPerSegment int, fileSizeLimit int64, metaItemCount int, streaming int32) {
 	c := &tsStoreConf
 	return c.maxSegmentLimit, c.maxRowsPerSegment, c.fileSizeLimit, c.maxChunkMetaItemCount, c.streamingCompact
+}
+
+// VerifC02Recovered is called by the two deferred functions of engine/immutable that are meant to recover a panic of
+// a compaction (task.go, CompactTask.Execute) or of an out-of-order merge (merge_out_of_order.go, execMergeContext)
+// when compact-recovery is on. In the tree as it is they call CompactRecovery / MergeRecovery, whose recover() is one
+// call too deep to recover anything (it is not called directly by the deferred function), so the panic ends the
+// process. The C02 overlay rewrites exactly those two call lines into `if e := recover(); e != nil {
+// VerifC02Recovered(...) }`: the panic is then logged the way CompactRecovery / MergeRecovery would have logged it and the
+// worker process survives to report the history as a violation.
+func VerifC02Recovered(what string, err interface{}, path string) {
+	log.Error(fmt.Sprintf("[%s Panic:err:%v, path:%s] %s", what, err, path, debug.Stack()))
 }
